@@ -848,24 +848,30 @@ fn vp_native_connect_refusals_body() {
     for (si, status) in [100u16, 199, 300, 302, 304, 400, 403, 407, 500, 503, 599].into_iter().enumerate() {
         let (with_cl, blen) = shapes[si % shapes.len()];
         let (origin, authority) = origins[si % origins.len()];
-        for creds in [true, false] {
+        // credentials whose base64 form needs the characters in which the alphabets differ ("bob:p~ss" -> Ym9iOnB+c3M=)
+        for cred in [Some("pu:pw"), Some("bob:p~ss"), Some("~~~:~~"), None] {
+            let creds = cred.is_some();
             let log = Arc::new(Mutex::new(Vec::new()));
             let body = "x".repeat(blen);
             let proxy = serve(log.clone(), move |_, _| {
                 if with_cl { resp(status, None, &body) } else { format!("HTTP/1.1 {} X\r\nConnection: close\r\n\r\n{}", status, body).into_bytes() } });
             let mut s = crate::Session::new();
-            let purl = if creds { format!("http://pu:pw@127.0.0.1:{}", proxy) } else { format!("http://127.0.0.1:{}", proxy) };
+            let purl = match cred { Some(c) => format!("http://{}@127.0.0.1:{}", c, proxy), None => format!("http://127.0.0.1:{}", proxy) };
             s.proxy_settings(crate::ProxySettings::builder().https_proxy(Url::parse(&purl).unwrap()).build());
             let e = s.post(origin).header("Authorization", "Bearer tok").header("X-Caller", "caller-header").text("topsecret").send();
             cases += 1;
             settle(&log, 1);
             let seen = log.lock().unwrap().clone();
-            let ctx = format!("status {} reply body {} bytes (Content-Length: {}) origin {} proxy credentials {}", status, blen, with_cl, origin, creds);
+            let ctx = format!("status {} reply body {} bytes (Content-Length: {}) origin {} proxy credentials {:?}", status, blen, with_cl, origin, cred);
             assert_eq!(seen.len(), 1, "{}", ctx);
             assert_eq!(seen[0].first_line, format!("CONNECT {} HTTP/1.1", authority), "{}", ctx);
             let head = seen[0].head.to_ascii_lowercase();
             for leak in ["bearer tok", "caller-header", "topsecret", "ou:op", &b64(b"ou:op").to_ascii_lowercase()[..], "/secret"] { assert!(!head.contains(leak) && !seen[0].first_line.contains(leak), "{:?} written to the proxy in clear: {}", leak, ctx); }
-            if creds { assert!(head.contains(&format!("proxy-authorization: basic {}", b64(b"pu:pw")).to_ascii_lowercase()), "Proxy-Authorization from the proxy URL: {} head {:?}", ctx, seen[0].head); }
+            if let Some(c) = cred {
+                // the value is compared as it is (base64 is case sensitive), with an independent standard-alphabet encoder
+                let value = seen[0].head.lines().find(|l| l.to_ascii_lowercase().starts_with("proxy-authorization:")).map(|l| l[20..].trim().to_string());
+                assert_eq!(value, Some(format!("Basic {}", b64(c.as_bytes()))), "Proxy-Authorization derived from the proxy URL's credentials {:?}: {} head {:?}", c, ctx, seen[0].head);
+            }
             assert!(seen[0].raw_after_head.is_empty() && seen[0].body.is_empty(), "client wrote {} bytes to the proxy after a {} reply", seen[0].raw_after_head.len() + seen[0].body.len(), status);
             match e.map_err(|e| e.into_kind()) {
                 Err(crate::ErrorKind::ConnectError { status_code, body }) => {
@@ -1272,6 +1278,37 @@ fn wire_of<B: Body>(b: crate::RequestBuilder<B>) -> Req {
     let mut wire2 = Vec::new(); req.write_request(&mut wire2, &url, None).unwrap();
     assert!(wire == wire2, "the request is not written identically the second time");
     r
+}
+
+/// C07 / C15: a multipart form as a request on the wire: the framing headers describe exactly the bytes written (Content-Length
+/// equal to the body octets, or well-formed chunks, nothing after the frame), and the framed body is the whole form - one
+/// delimiter line per part and the closing delimiter announced in Content-Type at its very end
+#[test]
+fn vp_native_multipart_request_on_the_wire() { crate::verif_native_watchdog::watched(vp_native_multipart_request_on_the_wire_body); }
+fn vp_native_multipart_request_on_the_wire_body() {
+    let mut cases = 0u64;
+    let big = vec![b'z'; 20000];
+    for ntext in 0..=3usize { for nfiles in 0..=2usize { for textlen in [0usize, 5, 9000] {
+        let texts: Vec<(String, String)> = (0..ntext).map(|i| (format!("t{}", i), "v".repeat(textlen + i))).collect();
+        let mut b = crate::MultipartBuilder::new();
+        for (k, v) in &texts { b = b.with_text(k, v); }
+        for i in 0..nfiles { b = b.with_file(crate::MultipartFile::new(if i == 0 { "f0" } else { "f1" }, if i == 0 { &big[..] } else { &b"small"[..] })); }
+        let mut req = crate::post("http://h.test/upload").body(b.build().unwrap()).prepare();
+        let url = req.url().clone();
+        set_host(&mut req.headers, &url).unwrap();
+        let mut wire = Vec::new(); req.write_request(&mut wire, &url, None).unwrap();
+        let r = decode_request(&wire); cases += 1;   // decode_request itself refuses a Content-Length larger than what was written, both framings at once, malformed chunks
+        let ctx = format!("form with {} text fields of about {} bytes and {} files", ntext, textlen, nfiles);
+        assert!(r.trailing.is_empty(), "{}: {} bytes were written after the frame the headers announce (Content-Length {:?})", ctx, r.trailing.len(), header(&r, "content-length").first().map(|v| String::from_utf8_lossy(v).to_string()));
+        let ct = header(&r, "content-type"); assert_eq!(ct.len(), 1, "{}", ctx);
+        let boundary = String::from_utf8_lossy(ct[0]).strip_prefix("multipart/form-data; boundary=").unwrap_or_else(|| panic!("{}: Content-Type {:?}", ctx, String::from_utf8_lossy(ct[0]))).to_string();
+        let closing = format!("\r\n--{}--", boundary);
+        assert!(r.body.ends_with(closing.as_bytes()), "{}: the framed body ({} bytes) does not end with the closing delimiter", ctx, r.body.len());
+        let opening = format!("\r\n--{}\r\n", boundary);
+        let parts = r.body.windows(opening.len()).filter(|w| *w == opening.as_bytes()).count();
+        assert_eq!(parts, ntext + nfiles, "{}: delimiter lines in the framed body", ctx);
+    } } }
+    println!("VP-NATIVE multipart_request_on_the_wire cases={}", cases);
 }
 
 /// C07: methods, query parameters (param/params/query, special characters, duplicates, pre-existing query), authentication helpers,
